@@ -62,6 +62,30 @@ def norm_type(t: str) -> str:
     return t
 
 
+def _squash(t: str) -> str:
+    t = t.replace('struct ', '').replace('class ', '').replace(' ', '')
+    t = re.sub(r'(?<![A-Za-z0-9_:])::', '', t)
+    return t
+
+
+def _template_args(t: str) -> str:
+    """text between the outermost <...> of the last component of a type spelling"""
+    depth, start = 0, None
+    for i, ch in enumerate(t):
+        if ch == '<':
+            if depth == 0:
+                start = i + 1
+            depth += 1
+        elif ch == '>':
+            depth -= 1
+            if depth == 0 and start is not None:
+                last = (start, i)
+    try:
+        return t[last[0]:last[1]]
+    except UnboundLocalError:
+        return ''
+
+
 class Program:
     def __init__(self, asts: Dict[str, List[dict]], info: Dict):
         self.info = info
@@ -72,6 +96,7 @@ class Program:
         self.enum_consts: Dict[Tuple[str, str], Tuple[str, int]] = {}   # (run,id) -> (enum, ordinal)
         self.record_by_id: Dict[Tuple[str, str], Record] = {}
         self.var_decls: Dict[Tuple[str, str], dict] = {}
+        self.spec_records: Dict[str, List[Tuple[str, Record]]] = {}   # template name -> [(argument text, record)]
         for run, objs in asts.items():
             for obj in objs:
                 self._walk(obj, run, [])
@@ -133,6 +158,8 @@ class Program:
             self._function(node, run, None)
         elif kind == 'EnumDecl':
             self._enum(node, run)
+        elif kind == 'VarDecl':
+            self.var_decls[(run, node['id'])] = node            # namespace-scope variable
 
     def _enum(self, node: dict, run: str):
         ordinal = 0
@@ -189,10 +216,17 @@ class Program:
                         rec.methods.setdefault(fn.name, []).append(fn)
             elif k == 'EnumDecl':
                 self._enum(c, run)
+            elif k == 'VarDecl':
+                self.var_decls[(run, c['id'])] = c              # static data member
         if not node.get('completeDefinition', True) and not rec.fields and not rec.methods:
             return rec
         if name:
             self._register_record(rec)
+            if node.get('kind') == 'ClassTemplateSpecializationDecl':
+                targs = [_squash(c.get('type', {}).get('qualType', '')) for c in node.get('inner', [])
+                         if c.get('kind') == 'TemplateArgument' and 'type' in c]
+                if targs and (rec.fields or rec.methods):
+                    self.spec_records.setdefault(name, []).append((','.join(targs), rec))
         return rec
 
     # ---- lookups -----------------------------------------------------------------------------------
@@ -200,6 +234,22 @@ class Program:
         key = norm_type(qual_type)
         if key.startswith('std::'):
             return None
+        # several specialisations of one class template (e.g. MutexWrapped<optional<..>> and MutexWrapped<map<..>>):
+        # pick the one whose template arguments match the type's spelling
+        base = key.split('::')[-1]
+        specs = self.spec_records.get(base, [])
+        if len({id(r) for _a, r in specs}) > 1 and '<' in qual_type:
+            want = _squash(_template_args(qual_type))
+            exact = [r for a, r in specs if a == want]
+            if not exact:
+                head = want.split('<')[0]
+                exact = [r for a, r in specs if a.split('<')[0] == head]
+            if exact and len({id(r) for r in exact}) == 1:
+                return exact[-1]
+            if exact:
+                best = [r for r in exact if r.fields]
+                if best:
+                    return best[-1]
         parts = key.split('::')
         for i in range(len(parts)):
             k = '::'.join(parts[i:])
